@@ -4,6 +4,7 @@ Monitor kind: reference model (refs/ring.py: brute-force interpreter of the
 generator's AST) beside Read(text).GetQueryMatches(mol); metamorphic
 re-rendering (layout, label names) must not change the result.
 """
+import random
 import itertools
 
 from rdkit import Chem
@@ -442,9 +443,45 @@ def ring_sensitive(ast):
     return False
 
 
+def check_threads(ctx, key=None, rounds=3):
+    """Matching is a function of (fragment, molecule): query objects and
+    molecule objects shared by four threads that match at the same time give
+    every thread the match lists a lone call gives (which the ordinary
+    workload judges against the denotation)."""
+    from vmon.core import threads as TH
+    from pgradd.RINGParser import Read
+    key = key or 'thr%d_%d' % (ctx.seed, ctx.shard)
+    r = random.Random('c08thr:%s' % key)
+    pool = mol_pool('quick')
+    frs = []
+    while len(frs) < (8 if ctx.tier == 'quick' else 30):
+        ast = R.gen_fragment(r, max_atoms=4)
+        frs.append(R.render(ast, r))
+    mols = r.sample(pool, 6) + r.sample(ringrich_pool(), 3)
+
+    def make_jobs():
+        jobs = []
+        for fi, text in enumerate(frs):
+            try:
+                q = Read(text)
+            except Exception:
+                continue
+            for smi, how, mol in mols:
+                def thunk(q=q, mol=mol):
+                    return repr(sorted(tuple(int(i) for i in t)
+                                       for t in q.GetQueryMatches(mol)))
+                jobs.append(((fi, smi, how), thunk))
+        return jobs
+    res = TH.stress(make_jobs, nthreads=4, rounds=rounds)
+    TH.judge(ctx, res, 'fragment matching on shared query and molecule '
+             'objects', {'what': 'thread stress', 'key': key})
+
+
 def run_shard(ctx):
     pool = mol_pool(ctx.tier)
     ctx.notes['molecule_pool'] = len(pool)
+    if ctx.shard % 4 == 0:
+        check_threads(ctx)
     small = [x for x in pool if x[2].GetNumHeavyAtoms() <= 3]
     r = ctx.sub_rng('c08', ctx.shard)
     # 1. random fragments
@@ -505,6 +542,8 @@ def run_shard(ctx):
 
 
 def replay(ctx, case):
+    if case.get('what') == 'thread stress':
+        return check_threads(ctx, case['key'], rounds=12)
     ast = case['ast']
     ast['bonds'] = [tuple(b) for b in ast['bonds']]
     check_pair(ctx, ast, case['text'], case['smiles'], case['form'],
